@@ -33,10 +33,11 @@ HTTP_RUN = {"harness": "hhttp", "driver": "httpdrv", "fields": ["cache", "err", 
 C07_RUN = {"harness": "hhttp7", "driver": "httpdrv", "fields": ["render", "err", "cache", "st", "nb", "offs", "ref"], "corpus": "http7",
            "quick": {"n": 700, "shards": 16}, "thorough": {"n": 6000, "shards": 32}}
 
-# engine-level "nothing further after an error" (DESIGN 8 #12): real nbhttp engines over loopback in the three I/O modes;
-# implementation-only stream (the Lean side is theorem c08_silent_after_close), so no k=v field is compared
-ENGINE_RUN = {"harness": "hhttpe", "driver": "httpdrv", "fields": [],
-              "quick": {"n": 6, "shards": 3, "timeout": 600}, "thorough": {"n": 60, "shards": 8, "timeout": 1800}}
+# engine-level "nothing further after an error" (DESIGN 8 #12): real nbhttp engines over loopback, three I/O modes x
+# {plain, TLS}; differential against the engine model (Model/HttpEngine.lean over the parser model): requests that reach
+# the handler, whether the server closes the connection, number of Engine.OnClose callbacks
+ENGINE_RUN = {"harness": "hhttpe", "driver": "httpdrv", "fields": ["handled", "closed", "onclose"],
+              "quick": {"n": 12, "shards": 3, "timeout": 600}, "thorough": {"n": 90, "shards": 8, "timeout": 1800}}
 
 PROPS = {
     "C07": {
